@@ -328,3 +328,75 @@ def check_values(run):
     if run[0][0] == "load":
         return eval_load_run(run)
     return eval_store_run(run)
+
+
+# ---------------------------------------------------------------------------------------------------------------------
+# the codec functions as a whole, whatever their spelling: evaluated on byte / value patterns
+
+_MEM = 1 << 20
+
+
+def _patterns(nbytes):
+    pats = [[0] * nbytes, [0xff] * nbytes, list(range(1, nbytes + 1)), [0x80 + i for i in range(nbytes)]]
+    for k in range(nbytes):
+        for v in (0x80, 0xff, 0x7f):
+            p = [0] * nbytes
+            p[k] = v
+            pats.append(p)
+            q = [0x11] * nbytes
+            q[k] = v
+            pats.append(q)
+    return pats
+
+
+def eval_extractor(unit, fn, nbytes):
+    """a function (pointer to bytes) -> unsigned integer: must return the big-endian value of the first nbytes bytes
+    -> (mismatches, patterns)"""
+    ps = unit.params(fn)
+    if len(ps) != 1:
+        raise FD.Unknown("extractor with %d parameters" % len(ps), fn)
+    bad = []
+    pats = _patterns(nbytes)
+    for pat in pats:
+        def deref(a, n, pat=pat):
+            k = a - _MEM
+            if 0 <= k < nbytes:
+                return pat[k]
+            raise FD.Unknown("read of byte %d of an %d-byte field" % (k, nbytes), n)
+        ev = FD.Eval(deref=deref, max_steps=2000)
+        got = ev.call_function(unit, fn, [_MEM])
+        want = int.from_bytes(bytes(pat), "big")
+        if not isinstance(got, int) or (got & (2 ** (8 * nbytes) - 1)) != want or got < 0 or got >= 2 ** (8 * nbytes):
+            bad.append({"bytes": ["%02x" % b for b in pat], "got": ("%x" % (got & (2 ** 64 - 1))) if isinstance(got, int) else repr(got), "expected": "%x" % want})
+    return bad, len(pats)
+
+
+def eval_emplacer(unit, fn, nbytes):
+    """a function (pointer to bytes, value): must store the value's nbytes bytes big-endian at the pointer and nothing else"""
+    ps = unit.params(fn)
+    if len(ps) != 2:
+        raise FD.Unknown("emplacer with %d parameters" % len(ps), fn)
+    ptr = [i for i, p in enumerate(ps) if "*" in (A.qtype(p) or "")]
+    if len(ptr) != 1:
+        raise FD.Unknown("emplacer: destination parameter not recognised", fn)
+    bad = []
+    pats = _patterns(nbytes)
+    for pat in pats:
+        mem = {}
+
+        def store(a, v, n, mem=mem):
+            mem[a - _MEM] = v & 0xff
+
+        def deref(a, n, mem=mem):
+            return mem.get(a - _MEM, 0)
+        ev = FD.Eval(deref=deref, store=store, max_steps=2000)
+        val = int.from_bytes(bytes(pat), "big")
+        args = [None, None]
+        args[ptr[0]] = _MEM
+        args[1 - ptr[0]] = val
+        ev.call_function(unit, fn, args)
+        got = [mem.get(i) for i in range(nbytes)]
+        extra = sorted(k for k in mem if not 0 <= k < nbytes)
+        if got != pat or extra:
+            bad.append({"value": "%x" % val, "stored": ["%02x" % b if b is not None else "--" for b in got], "expected": ["%02x" % b for b in pat], "stores_outside": extra[:4]})
+    return bad, len(pats)
